@@ -176,7 +176,8 @@ def _plain_function(fn):
 
 
 _PURE_BUILTINS = {"len", "min", "max", "sum", "sorted", "list", "tuple", "enumerate", "zip", "reversed", "str", "repr", "isinstance", "any",
-                  "all", "bool", "iter", "set", "frozenset", "type", "id", "print"}
+                  "all", "bool", "iter", "set", "frozenset", "type", "id", "print", "dict", "map", "filter", "range", "float", "int", "abs", "round",
+                  "format", "next", "divmod", "ord", "chr"}
 _PURE_METHODS = {"index", "count", "copy", "__len__", "__contains__"}
 
 
@@ -384,6 +385,8 @@ class Engine:
             for t in s.targets:
                 if isinstance(t, ast.Subscript) and isinstance(t.value, ast.Name) and isinstance(st.env.get(t.value.id), Tup):
                     st.env[t.value.id] = Unk("item deleted")
+                elif isinstance(t, ast.Name) and self.fn is None:
+                    st.env.pop(t.id, None)
             return [(st, "next", None)]
         if isinstance(s, (ast.Pass, ast.Assert, ast.Import, ast.ImportFrom, ast.Global, ast.Nonlocal)):
             return [(st, "next", None)]
@@ -415,11 +418,61 @@ class Engine:
                 else:
                     out.append((st2, o, pay))
             return out
+        if isinstance(s, ast.With):
+            return self.with_stmt(s, st)
         if isinstance(s, ast.For):
             return self.for_loop(s, st)
         if isinstance(s, ast.While):
             return self.while_loop(s, st)
         raise Unsupported(f"statement {type(s).__name__} at line {getattr(s, 'lineno', '?')}")
+
+    def with_stmt(self, s, st):
+        """`with contextlib.suppress(E, ...):` is `try: ... except (E, ...): pass`; any other context manager is not modelled"""
+        names = []
+        for item in s.items:
+            e = item.context_expr
+            if not (isinstance(e, ast.Call) and self.lib_name(e.func) == "contextlib.suppress" and not e.keywords
+                    and item.optional_vars is None and all(dotted(a) for a in e.args)):
+                if self.lenient:
+                    for n in ast.walk(s):
+                        if isinstance(n, ast.Name) and isinstance(n.ctx, ast.Store):
+                            st.env[n.id] = Unk("assigned under a context manager")
+                    return [(st, "next", None)]
+                raise Unsupported(f"with statement at line {s.lineno}: {ast.unparse(e)}")
+            names.extend(dotted(a) for a in e.args)
+        out = []
+        for st2, o, pay in self.block(s.body, st):
+            if o == "exc" and (pay in names or "Exception" in names or "BaseException" in names):
+                out.append((st2, "next", None))
+            else:
+                out.append((st2, o, pay))
+        return out
+
+    def lib_name(self, func):
+        """canonical dotted name of a standard-library callable reached through the imports of the module / the function
+        (`from itertools import islice as take` -> 'itertools.islice'), else None"""
+        d = dotted(func)
+        if d is None:
+            return None
+        imp = getattr(self, "_imports", None)
+        if imp is None:
+            imp = {}
+            for tree in (self.mod.tree, self.fn):
+                if tree is None:
+                    continue
+                nodes = tree.body if isinstance(tree, ast.Module) else list(ast.walk(tree))
+                for n in nodes:
+                    if isinstance(n, ast.Import):
+                        for a in n.names:
+                            imp[(a.asname or a.name).split(".")[0]] = a.name if a.asname else a.name.split(".")[0]
+                    elif isinstance(n, ast.ImportFrom) and n.module and not n.level:
+                        for a in n.names:
+                            imp[a.asname or a.name] = n.module + "." + a.name
+            self._imports = imp
+        head, _, rest = d.partition(".")
+        if head not in imp:
+            return None
+        return imp[head] + ("." + rest if rest else "")
 
     def for_loop(self, s, st):
         forks = self.forking_eval(s.iter, st)
@@ -431,6 +484,7 @@ class Engine:
         return self._for_loop(s, forks[0][0], forks[0][1])
 
     def _for_loop(self, s, st, it):
+        it = _as_sequence(it)
         if not isinstance(it, Tup):
             if self.lenient:
                 # a loop that is not the rule's business: what it assigns is unknown afterwards
@@ -507,6 +561,16 @@ class Engine:
                 st.env[t.value.id] = Tup(tuple(items))
             else:
                 st.env[t.value.id] = Unk("subscript store")
+        elif isinstance(t, ast.Subscript) and isinstance(t.value, ast.Name) and isinstance(st.env.get(t.value.id), DictV):
+            cur = st.env[t.value.id]
+            k = None if isinstance(t.slice, ast.Slice) else self.ev(t.slice, st)
+            if k is not None and (is_num(k) or isinstance(k, (Lit, Const))) and all(is_num(q) or isinstance(q, (Lit, Const)) for q, _ in cur.items):
+                items = [(q, (v if q == k else x)) for q, x in cur.items]
+                if all(q != k for q, _ in cur.items):
+                    items.append((k, v))
+                st.env[t.value.id] = DictV(tuple(items))
+            else:
+                st.env[t.value.id] = Unk("subscript store")
         # attribute stores and stores into other objects are not modelled
 
     # ------------------------------------------------------------ tests
@@ -514,7 +578,7 @@ class Engine:
         """-> [(truth, state)]"""
         structural = isinstance(test, ast.BoolOp) or (isinstance(test, ast.UnaryOp) and isinstance(test.op, ast.Not)) \
             or (isinstance(test, ast.Compare) and len(test.ops) > 1)
-        if not structural and self.inline is not None:
+        if not structural:
             sites = self._inline_sites(test, st)
             if sites:
                 out = []
@@ -553,7 +617,73 @@ class Engine:
             return self.compare(test, st)
         if isinstance(test, ast.Constant):
             return [(bool(test.value), st)]
-        v = self.ev(test, st)
+        if isinstance(test, ast.Call) and isinstance(test.func, ast.Name) and test.func.id in ("any", "all") and test.func.id not in st.env \
+                and len(test.args) == 1 and not test.keywords:
+            r = self._decide_quantifier(test.func.id == "any", test.args[0], st)
+            if r is not None:
+                return r
+        if isinstance(test, ast.NamedExpr) and isinstance(test.target, ast.Name):
+            out = []
+            for st2, v in self.forking_eval(test.value, st):
+                st2.env[test.target.id] = v
+                # the truth of the name just bound (so that the rule's oracle sees the same test as `x = ...; if x:`)
+                out.extend(self._decide(ast.copy_location(ast.Name(id=test.target.id, ctx=ast.Load()), test), st2))
+            return out
+        return self._truth(test, self.ev(test, st), st)
+
+    def _decide_quantifier(self, is_any, arg, st):
+        """any(test for x in seq) / all(...) over a literal sequence: the chain of tests joined by or / and, item by item"""
+        if isinstance(arg, (ast.GeneratorExp, ast.ListComp)) and len(arg.generators) == 1 and not arg.generators[0].is_async:
+            g = arg.generators[0]
+            it = _as_sequence(self.ev(g.iter, st))
+            if not isinstance(it, Tup):
+                return None
+            saved = {n.id: st.env.get(n.id) for n in ast.walk(g.target) if isinstance(n, ast.Name)}
+            res = [(not is_any, st)]
+            for item in it.items:
+                new = []
+                for t, c in res:
+                    if t == is_any:                  # decided by an earlier item
+                        new.append((t, c))
+                        continue
+                    self.assign(g.target, item, c)
+                    alive = [(True, c)]
+                    for f in g.ifs:
+                        step = []
+                        for t2, c2 in alive:
+                            step.extend(self.decide(f, c2) if t2 else [(t2, c2)])
+                        alive = step
+                    for t2, c2 in alive:
+                        if not t2:
+                            new.append((t, c2))      # filtered out: contributes nothing
+                        else:
+                            new.extend(self.decide(arg.elt, c2))
+                res = new
+            for _, c in res:
+                for nm, old in saved.items():
+                    if old is None:
+                        c.env.pop(nm, None)
+                    else:
+                        c.env[nm] = old
+            return res
+        v = self.ev(arg, st)
+        if isinstance(v, Tup):
+            truths = []
+            for x in v.items:
+                if is_num(x):
+                    truths.append(x != 0)
+                elif isinstance(x, Lit):
+                    truths.append(bool(x.s))
+                elif isinstance(x, Const):
+                    truths.append(bool(x.value))
+                elif isinstance(x, Tup):
+                    truths.append(bool(x.items))
+                else:
+                    return None
+            return [((any if is_any else all)(truths), st)]
+        return None
+
+    def _truth(self, test, v, st):
         if is_num(v):
             return [(v != 0, st)]
         if isinstance(v, Lit):
@@ -562,6 +692,13 @@ class Engine:
             return [(bool(v.value), st)]
         if isinstance(v, Tup):
             return [(bool(v.items), st)]
+        if is_str(v):
+            from .c12_model import width_bounds
+            lo, hi = width_bounds(v, lambda name: None)
+            if lo > 0:
+                return [(True, st)]                  # text that holds at least one character
+            if hi == 0:
+                return [(False, st)]
         return self.undecided(test, st, ("truth", v, None))
 
     def undecided(self, test, st, vals=None):
@@ -686,8 +823,6 @@ class Engine:
     def _inline_sites(self, expr, st):
         """calls to followed functions that are evaluated whenever `expr` is (not the right operands of and / or, the arms of a
         conditional expression, the element of a comprehension), innermost and leftmost first"""
-        if self.inline is None:
-            return []
         cand = getattr(expr, "_c12_sites", None)
         if cand is None:
             cand = []
@@ -697,6 +832,9 @@ class Engine:
                     return
                 if isinstance(n, (ast.ListComp, ast.SetComp, ast.DictComp, ast.GeneratorExp)):
                     visit(n.generators[0].iter)
+                    if isinstance(n, (ast.ListComp, ast.GeneratorExp)) and len(n.generators) == 1 and n.generators[0].ifs \
+                            and not n.generators[0].is_async:
+                        cand.append(n)               # a filtered comprehension: its filters may part the paths
                     return
                 if isinstance(n, ast.BoolOp):
                     visit(n.values[0])
@@ -710,13 +848,20 @@ class Engine:
                     return
                 for c in ast.iter_child_nodes(n):
                     visit(c)
-                if isinstance(n, ast.Call) and isinstance(n.func, ast.Name):
+                if isinstance(n, ast.Call) and isinstance(n.func, (ast.Name, ast.Attribute)):
                     cand.append(n)
             visit(expr)
             expr._c12_sites = cand = tuple(cand)
         if not cand:
             return cand
-        return [n for n in cand if self.resolve_callee(n, st) is not None]
+        return [n for n in cand if self._is_site(n, st)]
+
+    def _is_site(self, n, st):
+        if isinstance(n, ast.Call):
+            if isinstance(n.func, ast.Name) and self.inline is not None and self.resolve_callee(n, st) is not None:
+                return True
+            return self.param is not None and self.lib_name(n.func) in _BISECT and len(n.args) == 2 and not n.keywords
+        return True
 
     def prefork(self, sites, st):
         """evaluate the followed calls of an expression ahead of it: every path through a callee gives one state, in which the value
@@ -730,6 +875,10 @@ class Engine:
         return cur
 
     def _prefork_one(self, node, st):
+        if not isinstance(node, ast.Call):
+            return self._prefork_comp(node, st)
+        if self.lib_name(node.func) in _BISECT and self.resolve_callee(node, st) is None:
+            return self._prefork_bisect(node, st)
         key = _memo_key(node)
         st.env.pop(key, None)
         rc = self.resolve_callee(node, st)
@@ -757,6 +906,83 @@ class Engine:
                 out.append(ns)
             else:
                 self._term.append((ns, o, pay))
+        return out
+
+    def _prefork_comp(self, node, st):
+        """a comprehension with filters, evaluated item by item: a filter the interval does not decide parts the path (as the same test
+        in a loop body would); the list is remembered under the node"""
+        key = _comp_key(node)
+        st.env.pop(key, None)
+        g = node.generators[0]
+        try:
+            it = _as_sequence(self._ev(g.iter, st))
+        except (Unsupported, Raised):
+            return [st]
+        if not isinstance(it, Tup):
+            return [st]
+        saved = {n.id: st.env.get(n.id) for n in ast.walk(g.target) if isinstance(n, ast.Name)}
+        cur = [(st, ())]
+        for item in it.items:
+            nxt = []
+            for c, acc in cur:
+                self.assign(g.target, item, c)
+                alive = [(True, c)]
+                for f in g.ifs:
+                    step = []
+                    for t, c2 in alive:
+                        if not t:
+                            step.append((t, c2))
+                        else:
+                            step.extend(self.decide(f, c2))
+                    alive = step
+                for t, c2 in alive:
+                    nxt.append((c2, acc + ((self.ev(node.elt, c2),) if t else ())))
+            cur = nxt
+            self.nstates += len(cur)
+            if self.nstates > self.max_states:
+                raise Unsupported("too many paths")
+        out = []
+        for c, acc in cur:
+            for nm, old in saved.items():             # the comprehension's own variable does not outlive it
+                if old is None:
+                    c.env.pop(nm, None)
+                else:
+                    c.env[nm] = old
+            c.env[key] = Tup(acc)
+            out.append(c)
+        return out
+
+    def _prefork_bisect(self, node, st):
+        """bisect.bisect_right / bisect_left of the float parameter in an ascending literal table: one path per position"""
+        key = _memo_key(node)
+        st.env.pop(key, None)
+        table, x = self._ev_u(node.args[0], st), self._ev_u(node.args[1], st)
+        if not (isinstance(table, Tup) and table.items and all(is_num(t) for t in table.items)
+                and all(a <= b for a, b in zip(table.items, table.items[1:]))):
+            return [st]
+        left = _BISECT[self.lib_name(node.func)]
+        if is_num(x):
+            import bisect as _b
+            st.env[key] = Fraction((_b.bisect_left if left else _b.bisect_right)(list(table.items), x))
+            return [st]
+        shape = self._param_shape(x)
+        if shape is None:
+            return [st]
+        out = []
+        cur = [st]
+        for k, t in enumerate(table.items):
+            nxt = []
+            for c in cur:
+                for truth, c2 in self.split(shape, ast.LtE() if left else ast.Lt(), t, c):
+                    if truth:
+                        c2.env[key] = Fraction(k)
+                        out.append(c2)
+                    else:
+                        nxt.append(c2)
+            cur = nxt
+        for c in cur:
+            c.env[key] = Fraction(len(table.items))
+            out.append(c)
         return out
 
     def _ev_u(self, node, st):
@@ -802,7 +1028,7 @@ class Engine:
         own = set()
         if closure:
             own = set(env) | {n.id for n in ast.walk(fn) if isinstance(n, ast.Name) and isinstance(n.ctx, (ast.Store, ast.Del))}
-            env = {**{k: v for k, v in st.env.items() if not k.startswith("<call:")}, **env}      # free variables: the caller's locals
+            env = {**{k: v for k, v in st.env.items() if not k.startswith(("<call:", "<comp:"))}, **env}      # free variables: the caller's locals
         else:
             self.ctx.src.funcs_consulted.add(f"{self.rel}:{name}")
         sub = type(self)(self.ctx, self.rel, fn, param=self.param, cond=self.cond_hook, call=self.call_hook, cmp=self.cmp_hook, length=self.len_hook,
@@ -935,28 +1161,80 @@ class Engine:
             return kn
 
     def module_const(self, name):
+        """value a module-level name has once the module is imported, when the module's own top-level statements determine it (a literal,
+        a table built by a comprehension, a loop or a followed function) and no function of the module rebinds or alters it; else None"""
         if name in self._modconst:
             return self._modconst[name]
         self._modconst[name] = None
-        val = None
-        n = 0
-        for s in self.mod.tree.body:
-            tg = None
-            if isinstance(s, ast.Assign) and len(s.targets) == 1 and isinstance(s.targets[0], ast.Name):
-                tg, v = s.targets[0].id, s.value
-            elif isinstance(s, ast.AnnAssign) and isinstance(s.target, ast.Name) and s.value is not None:
-                tg, v = s.target.id, s.value
-            if tg == name:
-                n += 1
-                val = v
-        if n == 1:
-            try:
-                r = Engine(self.ctx, self.rel, None)._ev(val, State({}, Interval()))
-            except (Raised, Unsupported):
-                r = Unk("module constant")
-            if not _has_unknown(r):
-                self._modconst[name] = r
+        env = self._module_env()
+        if env is None:
+            self._modconst.pop(name, None)           # asked while the module level is being evaluated: not known *yet*
+            return None
+        r = env.get(name)
+        if r is not None and not _has_unknown(r) and not isinstance(r, FuncV) and name not in _altered_in_functions(self.mod.tree):
+            self._modconst[name] = r
         return self._modconst[name]
+
+    def _module_env(self):
+        """names bound at module level -> value, by executing the module's top-level statements in order (assignments, loops, tests,
+        calls of the module's own functions); a name bound by anything that is not followed (import, def, class, try, with) is unknown"""
+        tree = self.mod.tree
+        done = getattr(tree, "_c12_modenv", None)
+        if done is not None:
+            return None if done == "busy" else done
+        tree._c12_modenv = "busy"
+        eng = Engine(self.ctx, self.rel, None, lenient=True, inline=lambda nm: True)
+        eng._modconst = {}
+        st = State({}, Interval())
+
+        def forget(stmt):
+            for n in ast.walk(stmt):
+                if isinstance(n, ast.Name) and isinstance(n.ctx, (ast.Store, ast.Del)):
+                    st.env[n.id] = Unk("bound by a module-level statement that is not followed")
+                elif isinstance(n, (ast.FunctionDef, ast.AsyncFunctionDef, ast.ClassDef)) and n.name in st.env:
+                    st.env[n.name] = Unk("rebound")
+                elif isinstance(n, ast.alias) and (n.asname or n.name).split(".")[0] in st.env:
+                    st.env[(n.asname or n.name).split(".")[0]] = Unk("rebound")
+                elif isinstance(n, ast.Call) and isinstance(n.func, ast.Attribute) and isinstance(n.func.value, ast.Name):
+                    if n.func.value.id in st.env:
+                        st.env[n.func.value.id] = Unk("altered by a module-level statement that is not followed")
+
+        for stmt in tree.body:
+            if isinstance(stmt, (ast.FunctionDef, ast.AsyncFunctionDef, ast.ClassDef, ast.Import, ast.ImportFrom)):
+                nodes = [stmt] if not isinstance(stmt, (ast.Import, ast.ImportFrom)) else stmt.names
+                for n in nodes:
+                    nm = n.name if not isinstance(n, ast.alias) else (n.asname or n.name).split(".")[0]
+                    if nm in st.env:
+                        st.env[nm] = Unk("rebound")
+                continue
+            if isinstance(stmt, ast.Expr) and isinstance(stmt.value, ast.Constant):
+                continue
+            if isinstance(stmt, ast.Delete) and all(isinstance(t, ast.Name) for t in stmt.targets):
+                for t in stmt.targets:
+                    st.env.pop(t.id, None)
+                continue
+            if not isinstance(stmt, (ast.Assign, ast.AnnAssign, ast.AugAssign, ast.For, ast.While, ast.If, ast.Expr)):
+                forget(stmt)
+                continue
+            trial = State(dict(st.env), Interval())
+            try:
+                eng.nstates = 0
+                res = eng.block([stmt], trial)
+            except (Unsupported, Raised, RecursionError):
+                res = None
+            if res is None or len(res) != 1 or res[0][1] != "next" or res[0][0].facts:
+                forget(stmt)
+                continue
+            st = State({k: v for k, v in res[0][0].env.items() if not k.startswith(("<call:", "<comp:"))}, Interval())
+            for n in ast.walk(stmt):
+                # a list / dict handed to code that is not followed may be altered by it
+                if isinstance(n, ast.Call) and dotted(n.func) not in _PURE_BUILTINS and not (isinstance(n.func, ast.Name) and n.func.id in self.mod.funcs):
+                    for a in list(n.args) + [k.value for k in n.keywords]:
+                        if isinstance(a, ast.Name) and isinstance(st.env.get(a.id), (Tup, DictV)) \
+                                and not (isinstance(n.func, ast.Attribute) and isinstance(n.func.value, ast.Name) and n.func.attr in ("append", "extend", "format", "join")):
+                            st.env[a.id] = Unk("handed to code that is not followed")
+        tree._c12_modenv = st.env
+        return st.env
 
     def _ev(self, node, st):
         if isinstance(node, ast.Constant):
@@ -1030,11 +1308,18 @@ class Engine:
             return Opaque("test", (Lit(ast.unparse(node)),))
         if isinstance(node, ast.Lambda):
             return FuncV(node, id(self))
+        if isinstance(node, ast.NamedExpr) and isinstance(node.target, ast.Name):
+            v = self._ev(node.value, st)
+            st.env[node.target.id] = v
+            return v
         if isinstance(node, ast.Starred):
             return Unk("starred")
         if isinstance(node, (ast.ListComp, ast.GeneratorExp)) and len(node.generators) == 1 and not node.generators[0].is_async:
             g = node.generators[0]
-            it = self._ev(g.iter, st)
+            memo = st.env.get(_comp_key(node))
+            if memo is not None:
+                return memo                          # evaluated ahead of its statement (its filters part the paths)
+            it = _as_sequence(self._ev(g.iter, st))
             if not isinstance(it, Tup):
                 return Unk("comprehension over a non-literal sequence")
             items = []
@@ -1093,7 +1378,30 @@ class Engine:
             return a
         if isinstance(b, Unk):
             return b
+        # True / False in arithmetic are 1 / 0 (`n + (i > 0)`, `flag * 8`); two booleans under & | ^ stay boolean
+        ba, bb = _is_bool(a), _is_bool(b)
+        if ba and bb and isinstance(op, (ast.BitAnd, ast.BitOr, ast.BitXor)):
+            x, y = a.value, b.value
+            return Const(x & y if isinstance(op, ast.BitAnd) else (x | y if isinstance(op, ast.BitOr) else x ^ y))
+        if (ba or bb) and (ba or is_num(a)) and (bb or is_num(b)):
+            a = Fraction(int(a.value)) if ba else a
+            b = Fraction(int(b.value)) if bb else b
         if is_num(a) and is_num(b):
+            if isinstance(op, (ast.BitAnd, ast.BitOr, ast.BitXor, ast.LShift, ast.RShift)):
+                ia, ib = as_int(a), as_int(b)
+                if ia is None or ib is None:
+                    raise Raised("TypeError")            # bit operation on a float
+                if isinstance(op, ast.BitAnd):
+                    return Fraction(ia & ib)
+                if isinstance(op, ast.BitOr):
+                    return Fraction(ia | ib)
+                if isinstance(op, ast.BitXor):
+                    return Fraction(ia ^ ib)
+                if ib < 0:
+                    raise Raised("ValueError")
+                if ib > 400:
+                    return Unk("shift count")
+                return Fraction(ia << ib) if isinstance(op, ast.LShift) else Fraction(ia >> ib)
             try:
                 if isinstance(op, ast.Add):
                     return a + b
@@ -1117,8 +1425,10 @@ class Engine:
             if isinstance(a, Tup) and isinstance(b, Tup):
                 return Tup(a.items + b.items)
         if isinstance(op, ast.Mult):
-            if is_str(b) and not is_str(a):
+            if (is_str(b) or isinstance(b, Tup)) and not (is_str(a) or isinstance(a, Tup)):
                 a, b = b, a
+            if _is_bool(b):
+                b = Fraction(int(b.value))           # "*" * (i % 8 == 0)
             if is_str(a):
                 n = as_int(b)
                 if isinstance(a, Lit) and n is not None:
@@ -1154,7 +1464,13 @@ class Engine:
                 return Slice(base, lo, hi)
             return Unk("slice of " + type(base).__name__)
         ix = self._ev(sl, st)
+        if _is_bool(ix):
+            ix = Fraction(int(ix.value))             # (a, b)[test]: False -> 0, True -> 1
         i = as_int(ix)
+        if isinstance(ix, Opaque) and ix.name == "test" and isinstance(base, (Tup, Lit)) and len(base.items if isinstance(base, Tup) else base.s) >= 2:
+            # a pair indexed by a test the model cannot decide: either item, as the conditional expression `b if test else a`
+            pick = (lambda k: base.items[k]) if isinstance(base, Tup) else (lambda k: Lit(base.s[k]))
+            return Choice(ix.args[0].s, pick(1), pick(0))
         if isinstance(base, Tup) and i is not None:
             try:
                 return base.items[i]
@@ -1209,6 +1525,38 @@ class Engine:
                 return Const(None)
             st.env[node.func.value.id] = Unk("extend by a non-literal")
             return Const(None)
+        if isinstance(node.func, ast.Attribute) and isinstance(node.func.value, ast.Name) and node.func.attr in _MUTATORS \
+                and isinstance(st.env.get(node.func.value.id), (Tup, DictV)):
+            # a list / dict held in a local is altered in place: followed for the common forms, otherwise its content is unknown from here on
+            nm, cur, how = node.func.value.id, st.env[node.func.value.id], node.func.attr
+            idx = [as_int(a) for a in args]
+            if isinstance(cur, Tup) and not kw:
+                items = list(cur.items)
+                try:
+                    if how == "insert" and len(args) == 2 and idx[0] is not None:
+                        items.insert(idx[0], args[1])
+                        st.env[nm] = Tup(tuple(items))
+                        return Const(None)
+                    if how == "pop" and len(args) <= 1 and (not args or idx[0] is not None):
+                        r = items.pop(*idx)
+                        st.env[nm] = Tup(tuple(items))
+                        return r
+                    if how == "reverse" and not args:
+                        st.env[nm] = Tup(tuple(reversed(items)))
+                        return Const(None)
+                    if how == "clear" and not args:
+                        st.env[nm] = Tup(())
+                        return Const(None)
+                    if how == "sort" and not args and all(is_num(x) for x in items):
+                        st.env[nm] = Tup(tuple(sorted(items)))
+                        return Const(None)
+                except IndexError:
+                    raise Raised("IndexError")
+            if isinstance(cur, DictV) and how == "clear" and not args and not kw:
+                st.env[nm] = DictV(())
+                return Const(None)
+            st.env[nm] = Unk(f"altered in place by .{how}()")
+            return Unk(f".{how}()")
         rc = self.resolve_callee(node, st)
         if rc is not None:
             # a followed call in a position that is not evaluated ahead (arm of a conditional expression, comprehension element ...):
@@ -1230,13 +1578,42 @@ class Engine:
                     r = self.str_method(recv, node.func.attr, args, kw, st)
                     if r is not NotImplemented:
                         return r
-        if name in _BUILTINS and not kw:
-            r = getattr(self, "b_" + name)(args, st)
+        if isinstance(node.func, ast.Name) and isinstance(st.env.get(node.func.id), Opaque) and st.env[node.func.id].name.startswith("name:") \
+                and not st.env[node.func.id].args and st.env[node.func.id].name[5:] in _BUILTINS | {"map", "next"}:
+            name = st.env[node.func.id].name[5:]     # a local bound to a builtin (`for convert in (int, float): convert(s)`)
+        elif isinstance(node.func, ast.Name) and node.func.id in st.env:
+            name = None if name in _BUILTINS | {"map", "next"} else name          # a local that shadows a builtin
+        if name in ("map", "next") or (name is not None and self.lib_name(node.func) is not None):
+            r = self.library_call(name, node, args, kw, st)
+            if r is not NotImplemented:
+                return r
+        if isinstance(node.func, ast.Attribute) and node.func.attr in ("items", "keys", "values", "get") and not kw:
+            recv = self._ev(node.func.value, st)
+            if isinstance(recv, DictV):
+                if node.func.attr == "items" and not args:
+                    return Tup(tuple(Tup((k, v)) for k, v in recv.items))
+                if node.func.attr == "keys" and not args:
+                    return Tup(tuple(k for k, _ in recv.items))
+                if node.func.attr == "values" and not args:
+                    return Tup(tuple(v for _, v in recv.items))
+                if node.func.attr == "get" and len(args) in (1, 2) and (is_num(args[0]) or isinstance(args[0], (Lit, Const))) \
+                        and all(is_num(k) or isinstance(k, (Lit, Const)) for k, _ in recv.items):
+                    for k, v in recv.items:
+                        if k == args[0]:
+                            return v
+                    return args[1] if len(args) == 2 else Const(None)
+        if name in _BUILTINS and (not kw or (name == "enumerate" and set(kw) == {"start"} and len(args) == 1)):
+            r = getattr(self, "b_" + name)(args + ([kw["start"]] if kw else []), st)
             if r is not NotImplemented:
                 return r
         r = self.regex_call(name, node, args, kw, st)
         if r is not NotImplemented:
             return r
+        if isinstance(node.func, ast.Attribute) and node.func.attr == "maketrans" and not kw and (name == "str.maketrans" or
+                                                                                                 is_str(self._ev(node.func.value, st))):
+            t = _maketrans(args)
+            if t is not None:
+                return t
         if name == "format" and len(args) == 2:
             toks = _tokens(args[1])
             return make_fmt(parse_spec(toks) if toks is not None else None, args[0])
@@ -1253,6 +1630,63 @@ class Engine:
                     args = full
             return CallS(name, tuple(args))
         return Opaque("call:" + (name or ast.unparse(node.func)), tuple(args) + tuple(Opaque("kw:" + k, (v,)) for k, v in sorted(kw.items())))
+
+    def apply_value(self, f, args, st, node):
+        """call a function *value* (lambda / nested def of this frame, a followed module function, a builtin) on argument values;
+        NotImplemented when it is not followed or has more than one outcome"""
+        site = ast.copy_location(ast.Call(func=ast.Name(id="<applied>", ctx=ast.Load()), args=[], keywords=[]), node)
+        if isinstance(f, FuncV):
+            if f.owner != id(self) or not _plain_function(f.node) or len(self._stack) >= MAX_INLINE_DEPTH:
+                return NotImplemented
+            return self._inline_single("<local>" + getattr(f.node, "name", "lambda"), f.node, list(args), {}, st, site)
+        if isinstance(f, Opaque) and f.name.startswith("name:") and not f.args:
+            nm = f.name[5:]
+            if nm in _BUILTINS and nm not in self.mod.funcs:
+                return getattr(self, "b_" + nm)(list(args), st)
+            fn = self.mod.funcs.get(nm)
+            if fn is not None and "." not in nm and (nm + "#2") not in self.mod.funcs and nm not in self._stack and self.inline is not None \
+                    and self.inline(nm) and _plain_function(fn) and len(self._stack) < MAX_INLINE_DEPTH:
+                if self.call_hook is not None:
+                    r = self.call_hook(nm, list(args), {}, site, st, self)
+                    if r is not NotImplemented:
+                        return r
+                return self._inline_single(nm, fn, list(args), {}, st, site)
+            if fn is not None and self.call_hook is not None:
+                return self.call_hook(nm, list(args), {}, site, st, self)
+        return NotImplemented
+
+    def library_call(self, name, node, args, kw, st):
+        """map / next and the few standard-library callables that only rearrange literal sequences"""
+        lib = self.lib_name(node.func)
+        if name == "map" and len(args) >= 2 and not kw and all(isinstance(_as_sequence(a), Tup) for a in args[1:]):
+            out = []
+            n0 = len(st.effects)
+            for tup in zip(*[_as_sequence(a).items for a in args[1:]]):
+                r = self.apply_value(args[0], tup, st, node)
+                if r is NotImplemented or any(not e[0].startswith("<local>") and e[0] not in self.mod.funcs for e in st.effects[n0:]):
+                    return Unk("map of a function that is not followed")      # (map is lazy: effects of the function would interleave)
+                out.append(r)
+            return Tup(tuple(out))
+        if name == "next" and len(args) in (1, 2) and not kw and isinstance(node.args[0], ast.GeneratorExp) and isinstance(args[0], Tup):
+            if args[0].items:
+                return args[0].items[0]
+            if len(args) == 2:
+                return args[1]
+            raise Raised("StopIteration")
+        if lib == "itertools.islice" and not kw and len(args) in (2, 3, 4) and isinstance(_as_sequence(args[0]), Tup):
+            idx = [None if a == Const(None) else as_int(a) for a in args[1:]]
+            if all(i is not None or a == Const(None) for i, a in zip(idx, args[1:])) and all(i is None or i >= 0 for i in idx):
+                sl = slice(None, idx[0]) if len(idx) == 1 else slice(*idx)
+                if sl.step is None or sl.step > 0:
+                    return Tup(_as_sequence(args[0]).items[sl])
+        if lib == "itertools.chain" and not kw and all(isinstance(_as_sequence(a), Tup) for a in args):
+            return Tup(tuple(x for a in args for x in _as_sequence(a).items))
+        if lib in ("math.fabs",) and len(args) == 1 and not kw:
+            return self.b_abs(args, st)
+        if lib in _BISECT and len(args) == 2 and not kw and isinstance(args[0], Tup) and all(is_num(t) for t in args[0].items) and is_num(args[1]):
+            import bisect as _b
+            return Fraction((_b.bisect_left if _BISECT[lib] else _b.bisect_right)(list(args[0].items), args[1]))
+        return NotImplemented
 
     def _inline_single(self, name, fn, args, kw, st, node):
         trial = State(dict(st.env), st.iv, st.facts, st.effects)
@@ -1289,6 +1723,17 @@ class Engine:
         pat = None
         meth = None
         rest = None
+        if isinstance(node.func, ast.Attribute) and node.func.attr in ("group", "start", "end", "groups", "span"):
+            recv = self._ev(node.func.value, st)
+            if isinstance(recv, Const) and isinstance(recv.value, re.Match):
+                ints = [as_int(a) for a in args]
+                if all(i is not None for i in ints):
+                    try:
+                        r = getattr(recv.value, node.func.attr)(*ints)
+                    except (IndexError, TypeError):
+                        return Unk("match group")
+                    conv = lambda x: Lit(x) if isinstance(x, str) else (Const(None) if x is None else (Fraction(x) if isinstance(x, int) else Unk("match")))   # noqa: E731
+                    return Tup(tuple(conv(x) for x in r)) if isinstance(r, tuple) else conv(r)
         if name in ("re.compile",) and args and lit(args[0]) is not None and len(args) == 1:
             try:
                 return Const(re.compile(args[0].s))
@@ -1306,6 +1751,17 @@ class Engine:
                 pat, meth, rest = recv.value, node.func.attr, args
         if pat is None:
             return NotImplemented
+        if meth == "sub" and len(rest) == 2 and isinstance(rest[0], FuncV) and lit(rest[1]) is not None:
+            # the replacement is computed by a function of the match object: followed on every match of the literal text
+            def repl(m):
+                r = self.apply_value(rest[0], (Const(m),), st, node)
+                if not isinstance(r, Lit):
+                    raise Unsupported("replacement function")
+                return r.s
+            try:
+                return Lit(pat.sub(repl, rest[1].s))
+            except (Unsupported, re.error):
+                return Unk("regular expression with a replacement function that is not followed")
         if not all(lit(a) is not None for a in rest):
             return Unk("regular expression on non-literal text")
         try:
@@ -1344,6 +1800,22 @@ class Engine:
             if isinstance(recv, Lit):
                 return Lit(recv.s.replace(args[0].s, args[1].s))
             return Replace(recv, args[0].s, args[1].s)
+        if meth == "translate" and len(args) == 1 and not kw:
+            table = _translation_table(args[0])
+            if table is None:
+                return NotImplemented
+            if isinstance(recv, Lit):
+                return Lit(recv.s.translate(table))
+            # character-wise substitution of other text: the same as successive replace() calls when no replacement text holds a
+            # character that another entry maps
+            keys = [chr(k) for k in table]
+            vals = ["" if v is None else v for v in table.values()]
+            if all(k not in v for i, k in enumerate(keys) for j, v in enumerate(vals) if i != j):
+                out = recv
+                for k, v in zip(keys, vals):
+                    out = Replace(out, k, v)
+                return out
+            return NotImplemented
         if meth == "format":
             return template_format(recv, args, kw)
         if meth in ("split", "rsplit", "partition", "rpartition") and args and isinstance(args[0], Lit) and not kw:
@@ -1403,6 +1875,8 @@ class Engine:
             return NotImplemented
         if is_num(a[0]):
             return Fraction(int(a[0]))
+        if _is_bool(a[0]):
+            return Fraction(int(a[0].value))
         if isinstance(a[0], Lit):
             try:
                 return Fraction(int(a[0].s))
@@ -1501,11 +1975,141 @@ class Engine:
     b_sorted = lambda self, a, st: (Tup(tuple(sorted(a[0].items))) if len(a) == 1 and isinstance(a[0], Tup) and all(is_num(x) for x in a[0].items)
                                     else NotImplemented)
 
+    def b_ord(self, a, st):
+        if len(a) == 1 and isinstance(a[0], Lit) and len(a[0].s) == 1:
+            return Fraction(ord(a[0].s))
+        return NotImplemented
+
+    def b_chr(self, a, st):
+        i = as_int(a[0]) if len(a) == 1 else None
+        if i is not None and 0 <= i < 0x110000:
+            return Lit(chr(i))
+        return NotImplemented
+
+    def b_bool(self, a, st):
+        if not a:
+            return Const(False)
+        if len(a) != 1:
+            return NotImplemented
+        v = a[0]
+        if is_num(v):
+            return Const(v != 0)
+        if isinstance(v, Lit):
+            return Const(bool(v.s))
+        if isinstance(v, Tup):
+            return Const(bool(v.items))
+        if isinstance(v, Const) and (v.value is None or isinstance(v.value, bool)):
+            return Const(bool(v.value))
+        return NotImplemented
+
     def b_repr(self, a, st):
         return Fmt(Spec(conv="r"), a[0]) if len(a) == 1 else NotImplemented
 
 
-_BUILTINS = {"divmod", "abs", "round", "int", "float", "str", "len", "min", "max", "range", "enumerate", "zip", "reversed", "tuple", "list", "sorted", "repr"}
+_BUILTINS = {"divmod", "abs", "round", "int", "float", "str", "len", "min", "max", "range", "enumerate", "zip", "reversed", "tuple", "list", "sorted", "repr",
+             "ord", "chr", "bool"}
+
+
+_MUTATORS = {"append", "extend", "insert", "pop", "remove", "clear", "sort", "reverse", "update", "setdefault", "popitem", "add", "discard",
+             "__setitem__", "__delitem__"}
+
+
+def _altered_in_functions(tree):
+    """module-level names that some function of the module rebinds (`global`) or alters in place (a mutating method, an item store, an
+    augmented assignment) without having a local of that name"""
+    got = getattr(tree, "_c12_altered", None)
+    if got is not None:
+        return got
+    got = set()
+    for fn in ast.walk(tree):
+        if not isinstance(fn, (ast.FunctionDef, ast.AsyncFunctionDef, ast.Lambda)):
+            continue
+        glob, local = set(), {a.arg for a in ast.walk(fn.args) if isinstance(a, ast.arg)}
+        nodes = list(ast.walk(fn))
+        for n in nodes:
+            if isinstance(n, (ast.Global, ast.Nonlocal)):
+                glob.update(n.names)
+        for n in nodes:
+            if isinstance(n, ast.Name) and isinstance(n.ctx, (ast.Store, ast.Del)) and n.id not in glob:
+                local.add(n.id)
+        got |= glob
+        for n in nodes:
+            base = None
+            if isinstance(n, ast.Call) and isinstance(n.func, ast.Attribute) and n.func.attr in _MUTATORS:
+                base = n.func.value
+            elif isinstance(n, ast.Subscript) and isinstance(n.ctx, (ast.Store, ast.Del)):
+                base = n.value
+            elif isinstance(n, ast.AugAssign):
+                base = n.target.value if isinstance(n.target, ast.Subscript) else None
+            while isinstance(base, ast.Subscript):
+                base = base.value
+            if isinstance(base, ast.Name) and base.id not in local:
+                got.add(base.id)
+    tree._c12_altered = got
+    return got
+
+
+def _as_sequence(v):
+    """what iterating a value yields, as a Tup: the characters of a literal text, the keys of a dict"""
+    if isinstance(v, Lit):
+        return Tup(tuple(Lit(c) for c in v.s))
+    if isinstance(v, DictV):
+        return Tup(tuple(k for k, _ in v.items))
+    return v
+
+
+def _comp_key(node):
+    return "<comp:%d>" % id(node)
+
+
+_BISECT = {"bisect.bisect_right": False, "bisect.bisect": False, "bisect.bisect_left": True}      # name -> counts the elements < x (else <= x)
+
+
+def _is_bool(v):
+    return isinstance(v, Const) and isinstance(v.value, bool)
+
+
+def _translation_table(v):
+    """value of a str.translate table (a dict literal keyed by ord(...) / code points, or str.maketrans of literals) -> {code point: text | None}"""
+    if not isinstance(v, DictV):
+        return None
+    out = {}
+    for k, x in v.items:
+        ki = as_int(k)
+        if ki is None and isinstance(k, Lit) and len(k.s) == 1:
+            return None                              # a str key is never looked up by translate (only maketrans converts them)
+        if ki is None:
+            return None
+        if isinstance(x, Lit):
+            out[ki] = x.s
+        elif x == Const(None):
+            out[ki] = None
+        elif as_int(x) is not None and 0 <= as_int(x) < 0x110000:
+            out[ki] = chr(as_int(x))
+        else:
+            return None
+    return out
+
+
+def _maketrans(args):
+    """str.maketrans on literal arguments -> DictV keyed by code points, else None"""
+    try:
+        if len(args) == 1 and isinstance(args[0], DictV):
+            d = {}
+            for k, x in args[0].items:
+                kk = k.s if isinstance(k, Lit) else as_int(k)
+                xx = x.s if isinstance(x, Lit) else (None if x == Const(None) else as_int(x))
+                if kk is None or (xx is None and x != Const(None)):
+                    return None
+                d[kk] = xx
+            t = str.maketrans(d)
+        elif len(args) in (2, 3) and all(isinstance(a, Lit) for a in args):
+            t = str.maketrans(*[a.s for a in args])
+        else:
+            return None
+    except (ValueError, TypeError):
+        return None
+    return DictV(tuple((Fraction(k), Const(None) if x is None else (Lit(x) if isinstance(x, str) else Fraction(x))) for k, x in t.items()))
 
 
 def _tokens(v):
